@@ -210,7 +210,7 @@ def check_case(ctx, tokens, comp, doc, texts=None, style=None):
     if r.random() < 0.5:
         # a few refused compiles first (stray default identifiers, control characters, unbalanced brackets): what an
         # error path leaves behind in the environment must not change how valid queries read afterwards
-        for bad in (tokens["root"] + ".c[?\x01 == 1]", tokens["root"] + ".c[?@ == 1]" if tokens["self"] != "@" else tokens["root"] + ".c[?\x02]", "\x03", tokens["root"] + "[", tokens["root"] + "[?" + tokens["self"] + ".a ==]", "$" if tokens["root"] != "$" else "\x04"):
+        for bad in (tokens["root"] + ".c[?\x01 == 1]", tokens["root"] + ".c[?@ == 1]" if tokens["self"] != "@" else tokens["root"] + ".c[?\x02]", "\x03", tokens["root"] + "[", tokens["root"] + "[?" + tokens["self"] + ".a ==]", "$" if tokens["root"] != "$" else "\x04", tokens["fake"] + "[?\x01 == 1]"):
             impl.call(env.compile, bad)
         ctx.count("refused_compiles_before_use")
     seed = r.random()
@@ -222,6 +222,12 @@ def check_case(ctx, tokens, comp, doc, texts=None, style=None):
         t_def, t_cus = texts
     case = {"tokens": tokens, "comp": comp, "doc": doc, "t_def": t_def, "t_cus": t_cus, "style": style}
     base = results(jsonpath.DEFAULT_ENV, t_def, doc)
+    # (the text with its leading root identifier left out goes first: it is then the first thing the environment reads
+    # after the refused compiles)
+    rl_def, rl_cus = t_def[1:], t_cus[len(tokens["root"]):]
+    got2 = None
+    if t_def.startswith("$") and t_cus.startswith(tokens["root"]) and rl_def[:1] in (".", "[") and rl_cus[:1] == rl_def[:1] and not any(rl_cus.startswith(v) for v in tokens.values()):
+        got2 = results(env, rl_cus, doc)
     got = results(env, t_cus, doc)
     renamed = ",".join(sorted(k for k in IDENTS if tokens[k] != DEFAULT_TOKENS[k]))
     ctx.case(h(canon(tokens), t_def, canon(doc)), base[0] == "ok" and bool(base[1]))
@@ -232,6 +238,15 @@ def check_case(ctx, tokens, comp, doc, texts=None, style=None):
         ctx.violation("renamed-tokens-evaluate-differently", case, {"tokens": tokens, "default_text": t_def, "custom_text": t_cus, "default": repr(base)[:300], "custom": repr(got)[:300]})
         return
     ctx.cell("identifiers_renamed", renamed or "none")
+    # the same query with its leading root identifier left out (which both environments allow): it reads the same
+    if got2 is not None:
+        if results(jsonpath.DEFAULT_ENV, rl_def, doc) == base:
+            ctx.count("queries_with_the_root_identifier_left_out")
+            if norm_parts(got2, tokens["keys"]) != base:
+                ctx.violation("renamed-tokens-evaluate-differently:root-identifier-left-out", dict(case, t_def=rl_def, t_cus=rl_cus), {"tokens": tokens, "default_text": rl_def, "custom_text": rl_cus, "default": repr(base)[:300], "custom": repr(got2)[:300]})
+                return
+        else:
+            ctx.count("default_env_reads_the_rootless_text_differently_skipped")
     # the other entry points, and projection expressions (queries in their own right) written with the same spellings
     for route, fd, fc in (("findall", lambda: [canon(v) for v in jsonpath.DEFAULT_ENV.findall(t_def, doc, filter_context=EXTRA)], lambda: [canon(v) for v in env.findall(t_cus, doc, filter_context=EXTRA)]),
                           ("query.values", lambda: [canon(v) for v in jsonpath.DEFAULT_ENV.query(t_def, doc, filter_context=EXTRA).values()], lambda: [canon(v) for v in env.query(t_cus, doc, filter_context=EXTRA).values()])):
